@@ -122,9 +122,8 @@ theorem mixed_order_arith_coordinatewise (st : St) (op : String) (a b : Dense)
 theorem copy_mixed_order_by_coordinate (st : St) (dst src : Dense) (hdt : dst.dt = src.dt)
     (hord : dst.ap.o.col ≠ src.ap.o.col) :
     Dense.copy st dst src = (do
-      let (s, d) ← Dense.copyMask st dst src
-      let s ← Dense.copyIterOffsets s d.win src.win d.offsets src.offsets
-      pure (s, d)) := by
+      let s ← Dense.copyIterOffsets st dst.win src.win dst.offsets src.offsets
+      Dense.copyMaskIter s dst src dst.offsets src.offsets) := by
   have hso : Dense.sameOrder dst src = false := by
     unfold Dense.sameOrder; simpa using hord
   unfold Dense.copy Dense.copyDenseIter
